@@ -6,7 +6,7 @@ use crate::gen;
 use crate::run::*;
 use std::collections::HashSet;
 
-pub type ByteCheck = dyn Fn(&[u8], &mut Stats, Count) + Sync + Send;
+pub type ByteCheck<'a> = dyn Fn(&[u8], &mut Stats, Count) + Sync + Send + 'a;
 
 #[derive(Clone)]
 pub struct Space {
@@ -60,11 +60,11 @@ impl Space {
 pub struct Driver<'a> {
     pub total: Stats,
     spaces: Vec<Space>,
-    f: &'a ByteCheck,
+    f: &'a ByteCheck<'a>,
 }
 
 impl<'a> Driver<'a> {
-    pub fn new(f: &'a ByteCheck) -> Self {
+    pub fn new(f: &'a ByteCheck<'a>) -> Self {
         Driver { total: Stats::new(), spaces: vec![], f }
     }
     fn absorb(&mut self, s: Stats) {
@@ -121,7 +121,7 @@ fn strs(v: &[&str]) -> Vec<Vec<u8>> {
 }
 
 /// The language-identifier space of C02 / C13 / C19.
-pub fn langid_space(cfg: &Cfg, tag: &str, f: &ByteCheck) -> Stats {
+pub fn langid_space(cfg: &Cfg, tag: &str, f: &ByteCheck<'_>) -> Stats {
     let mut d = Driver::new(f);
     let alpha = gen::langid_alphabet();
     for k in 1..=cfg.pick(4, 5) {
@@ -154,7 +154,7 @@ pub fn langid_space(cfg: &Cfg, tag: &str, f: &ByteCheck) -> Stats {
 }
 
 /// The locale space of C01 / C03 / C04 / C05 / C13.
-pub fn locale_space(cfg: &Cfg, tag: &str, f: &ByteCheck) -> Stats {
+pub fn locale_space(cfg: &Cfg, tag: &str, f: &ByteCheck<'_>) -> Stats {
     let mut d = Driver::new(f);
     let full = gen::full_alphabet();
     let loc = gen::locale_alphabet();
